@@ -32,7 +32,7 @@ func (e *Engine) diffCases(rep *harnessReport, ts tierSpec, n int, seed int64) [
 	rng := rand.New(rand.NewSource(seed*7919 + int64(len(rep.Spec.Func))))
 	var out []*diffCase
 	// (a) models of explored symbolic paths, re-run concretely
-	for _, m := range rep.Res.PathModels {
+	for mi, m := range rep.Res.PathModels {
 		cfg := RunConfig{MaxSteps: ts.MaxSteps, MaxPaths: 1, Params: ts.Params, FixedModel: m, KnownActive: map[string]bool{}}
 		if cfg.MaxSteps == 0 {
 			cfg.MaxSteps = 2000000
@@ -45,6 +45,21 @@ func (e *Engine) diffCases(rep *harnessReport, ts tierSpec, n int, seed int64) [
 		if pr.outcome == "inconclusive" {
 			rep.Inconclusive = append(rep.Inconclusive, "differential twin: engine run inconclusive: "+pr.reason)
 			continue
+		}
+		// the symbolic run, evaluated under its model, must observe what the concrete run observes:
+		// this validates the symbolic stubs (strings, regexp, fmt splicing ...) against the concrete ones
+		if mi < len(rep.Res.PathModelObs) && pr.outcome == "ok" {
+			sym := rep.Res.PathModelObs[mi]
+			if len(sym) != len(pr.p.observes) {
+				rep.Inconclusive = append(rep.Inconclusive, fmt.Sprintf("engine self-check: symbolic path observed %d values, its concrete re-run %d (inputs %s)", len(sym), len(pr.p.observes), compactJSON(m)))
+			} else {
+				for k := range sym {
+					if sym[k] != pr.p.observes[k] {
+						rep.Inconclusive = append(rep.Inconclusive, fmt.Sprintf("engine self-check: observation %s symbolic=%s concrete=%s (inputs %s)", sym[k].Label, sym[k].Val, pr.p.observes[k].Val, compactJSON(m)))
+						break
+					}
+				}
+			}
 		}
 		out = append(out, &diffCase{model: m, failed: pr.p.failed, observes: pr.p.observes, outcome: pr.outcome})
 	}
